@@ -577,6 +577,46 @@ def run(ctx):
             cj.append(j)
     ctx.correspond("resource", IMPORTS, "res_case", "check_res_case", lits, cj)
     wide_resources(ctx)
+    identified_on_the_wire(ctx)
+
+
+def identified_on_the_wire(ctx):
+    """What the resource holds is what the poll / snapshot message says: every attribute the store admitted (also instances of
+    SUBCLASSES of the supported types: enum members with a str / int mixin, str / float subclasses) arrives with its value."""
+    import enum
+    from deep.api.resource import Resource
+    from deep.grpc import convert_resource
+
+    class Tier(enum.IntEnum):
+        GOLD = 3
+
+    class Region(str, enum.Enum):
+        EU = "eu-west"
+
+    class Name(str):
+        pass
+
+    class Ratio(float):
+        pass
+    attrs = {"service.name": Name("checkout"), "tier": Tier.GOLD, "region": Region.EU, "sample.ratio": Ratio(0.25), "canary": True,
+             "plain": "x", "count": 7, "zones": (Name("a"), Name("b"))}
+    res = Resource.create(dict(attrs))
+    held = dict(res.attributes.items())
+    wire = {kv.key: kv.value for kv in convert_resource(res).attributes}
+    j = dict(on_the_wire=True, attributes={k: repr(v) for k, v in attrs.items()})
+    ctx.case(j, nontrivial=True, bucket="resource-on-the-wire")
+    for k, v in held.items():
+        av = wire.get(k)
+        which = None if av is None else av.WhichOneof("value")
+        if which is None:
+            ctx.fail("resource attribute %s=%r is held by the resource and arrives %s on the wire" % (
+                k, v, "not at all" if av is None else "as a key without a value"), j, tag="wire-value-lost")
+            continue
+        got = getattr(av, which)
+        if which == "array_value":
+            got = tuple(getattr(x, x.WhichOneof("value")) for x in got.values)
+        if got != v:
+            ctx.fail("resource attribute %s=%r arrives as %r" % (k, v, got), j, tag="wire-value-differs")
 
 
 def wide_resources(ctx):
